@@ -4,6 +4,11 @@
 (*   StartCall h / StartRet h    onHandlerStart() about to be called / returned *)
 (*   FinishCall h / FinishRet h  onHandlerFinish() likewise                  *)
 (*   SigSend s                   a signal is offered on the signal channel   *)
+(*                               by a blocking sender (as termOnStdinClose)   *)
+(*   Config / ConfigDone         main is busy with the PT configuration / now *)
+(*                               calls wait(false)                            *)
+(*   OsSig s                     a real SIGINT / SIGTERM was raised on the    *)
+(*                               process (kill(2)); os/signal delivers it     *)
 (*   Wait1Ret s                  wait(false) returned signal s               *)
 (*   Wait2Ret num                wait(true) returned; numHandlers at return  *)
 (*   Stuck phase num             the monitor goroutine is blocked in select, *)
@@ -12,20 +17,27 @@
 (* places them.                                                              *)
 EXTENDS TermMon, Sequences, Json
 VARIABLE l
-tvars == <<hstate, num, phase, sigChan, sigsSent, gotEvent, l>>
+tvars == <<hstate, num, phase, sigChan, sigsSent, gotEvent, sigBuf, req, l>>
 Trace == ndJsonDeserialize("trace.ndjson")
 Is(e) == l <= Len(Trace) /\ Trace[l].event = e
 H(x) == CHOOSE h \in Handlers : ToString(h) = x
 TInit == Init /\ l = 1 /\ TLCSet(1, 0)
 TReset == /\ Is("Reset") /\ l' = l + 1
           /\ hstate' = [h \in Handlers |-> "idle"] /\ num' = 0 /\ phase' = "wait1"
-          /\ sigChan' = "none" /\ sigsSent' = 0 /\ gotEvent' = FALSE
+          /\ sigChan' = <<>> /\ sigsSent' = 0 /\ gotEvent' = FALSE /\ sigBuf' = <<>> /\ req' = {}
 Ev(e, A(_)) == Is(e) /\ l' = l + 1 /\ A(H(Trace[l].h))
 TStartCall == Ev("StartCall", StartCall)
 TStartRet == Ev("StartRet", StartRet)
 TFinishCall == Ev("FinishCall", FinishCall)
 TFinishRet == Ev("FinishRet", FinishRet)
 TSigSend == Is("SigSend") /\ l' = l + 1 /\ SigSend(Trace[l].s)
+\* the scenario starts with main still busy with the PT configuration (the monitor is not waiting yet) ...
+TConfig == /\ Is("Config") /\ l' = l + 1 /\ phase = "wait1" /\ sigsSent = 0 /\ num = 0 /\ phase' = "config"
+           /\ UNCHANGED <<hstate, num, sigChan, sigsSent, gotEvent, sigBuf, req>>
+\* ... until it calls wait(false)
+TConfigDone == Is("ConfigDone") /\ l' = l + 1 /\ ConfigDone
+\* a REAL signal raised with kill(2) on the process: delivered the way os/signal delivers
+TOsSig == Is("OsSig") /\ l' = l + 1 /\ OsSignal(Trace[l].s)
 \* wait(false) returned: the model's monitor must have taken the signal in wait1
 TWait1Ret == /\ Is("Wait1Ret") /\ l' = l + 1
              /\ phase \in {"closing", "returned"} /\ (phase = "closing") = (Trace[l].s = "INT")
@@ -33,10 +45,12 @@ TWait1Ret == /\ Is("Wait1Ret") /\ l' = l + 1
 TWait2Ret == /\ Is("Wait2Ret") /\ l' = l + 1 /\ phase = "returned" /\ num = Trace[l].num
              /\ UNCHANGED vars
 \* blocked for good: legitimate only if the model's monitor cannot move either
+\* (the real monitor is blocked inside wait(false) / wait(true) - it has not returned - so the model's must be there too)
 TStuck == /\ Is("Stuck") /\ l' = l + 1 /\ ~ENABLED MonStep /\ num = Trace[l].num
+          /\ phase = (IF Trace[l].phase = 1 THEN "wait1" ELSE "wait2")
           /\ UNCHANGED vars
-Silent == MonStep /\ UNCHANGED l
-TNext == TReset \/ TStartCall \/ TStartRet \/ TFinishCall \/ TFinishRet \/ TSigSend
+Silent == (TopCheck \/ AfterEvent \/ RecvSig \/ CloseListeners \/ \E h \in Handlers : RecvStart(h) \/ RecvFinish(h)) /\ UNCHANGED l
+TNext == TConfig \/ TConfigDone \/ TOsSig \/ TReset \/ TStartCall \/ TStartRet \/ TFinishCall \/ TFinishRet \/ TSigSend
          \/ TWait1Ret \/ TWait2Ret \/ TStuck \/ Silent
 TraceSpec == TInit /\ [][TNext]_tvars
 HW == TLCSet(1, IF l - 1 > TLCGet(1) THEN l - 1 ELSE TLCGet(1))
